@@ -1358,6 +1358,11 @@ func call(n *node) {
 			for i, v := range values {
 				val[i+1] = fixArg(v(f))
 			}
+			if hasVariadicArgs {
+				// The last argument is the variadic parameter itself, as in f(s...).
+				fn, in := val[0], val[1:]
+				val = []reflect.Value{reflect.ValueOf(func() { fn.CallSlice(in) })}
+			}
 			f.deferred = append([][]reflect.Value{val}, f.deferred...)
 			return tnext
 		}
@@ -1634,6 +1639,11 @@ func callBin(n *node) {
 			val[0] = value(f)
 			for i, v := range values {
 				val[i+1] = fixArg(getBinValue(getMapType, v, f))
+			}
+			if n.action == aCallSlice {
+				// The last argument is the variadic parameter itself, as in f(s...).
+				fn, in := val[0], val[1:]
+				val = []reflect.Value{reflect.ValueOf(func() { fn.CallSlice(in) })}
 			}
 			f.deferred = append([][]reflect.Value{val}, f.deferred...)
 			return tnext
